@@ -48,9 +48,9 @@ MANIFEST_ENTRY = dict(
          "data values off the tables (all oracles are identities that hold for any data, evaluated on 2 data kinds x seed). "
          "Cases whose own regressor matrix is rank deficient or has condition number > 1e8 are excluded and counted; "
          "autocovariances are asserted only for a reference spectral radius < 0.98. The dof divisor, the scale of the Minnesota "
-         "dummies and the role of dummy residuals in the covariance are undocumented: recorded, not gated. On the unchanged "
-         "tree every intercept=False configuration fails in estimate and simulate is wrong for order >= 2 (known findings), so "
-         "those parts of the space are reached only up to the failure.")
+         "dummies and the role of dummy residuals in the covariance are undocumented: recorded, not gated. The three defects "
+         "found here (intercept=False crash, order >= 2 simulate state, exogenous impact padding) were repaired in /repo "
+         "(1d7f54c, de562d4, 25d401b; DESIGN.md 9.3), so those parts of the space are now reached in full.")
 ASSUMPTIONS = [
     "numpy.linalg (lstsq, solve, svd, eigvals, cond) is correct",
     "the degrees-of-freedom divisor is undocumented: T_fit - (n_exog + intercept) and T_fit - (all regressors per equation) are both admitted, the one observed is recorded; where the second is not positive nothing is asserted about the covariance",
